@@ -613,21 +613,25 @@ Definition validate_ext (legacy allow : bool) (syntax : N) (t : table) (scope : 
     check (negb (str_mem extname option_names)) E_x_p3
   else Ok tt.
 
+(* the checks of one message declaration that do not descend: header, fields, oneofs *)
+Definition msg_local (legacy allow : bool) (syntax : N) (t : table) (full : str) (m : msg) : res unit :=
+  do _ <- check (has_dup (m_resnames m)) E_m_resnames;
+  do _ <- check (negb (field_ranges_ok (m_msgset m) (m_resranges m))) E_m_resranges;
+  do _ <- check (negb (field_ranges_ok (m_msgset m) (m_extranges m))) E_m_extranges;
+  do _ <- check (negb (ranges_no_overlap (m_resranges m) (m_extranges m))) E_m_overlap;
+  do _ <- check (has_dup_field_number (m_fields m)) E_m_dupnum;
+  do _ <- check (m_msgset m && negb legacy) E_m_msgset;
+  do _ <- check (m_msgset m && (is_proto3 syntax || match m_fields m with [] => false | _ => true end
+                                || match m_extranges m with [] => true | _ => false end)) E_m_badmsgset;
+  do _ <- check (is_proto3 syntax && match m_extranges m with [] => false | _ => true end) E_m_p3ext;
+  do _ <- for_each (validate_field legacy allow syntax t m full) (m_fields m);
+  validate_oneofs syntax (m_fields m) (length (m_oneofs m)) 0 false.
+
 Fixpoint validate_msg (legacy allow : bool) (syntax : N) (t : table) (scope : str) (m : msg) {struct m} : res unit :=
   match m with
-  | Msg name fields oneofs enums nested exts extranges resranges resnames mapentry msgset =>
+  | Msg name _ _ enums nested exts _ _ _ _ _ =>
     let full := join scope name in
-    do _ <- check (has_dup resnames) E_m_resnames;
-    do _ <- check (negb (field_ranges_ok msgset resranges)) E_m_resranges;
-    do _ <- check (negb (field_ranges_ok msgset extranges)) E_m_extranges;
-    do _ <- check (negb (ranges_no_overlap resranges extranges)) E_m_overlap;
-    do _ <- check (has_dup_field_number fields) E_m_dupnum;
-    do _ <- check (msgset && negb legacy) E_m_msgset;
-    do _ <- check (msgset && (is_proto3 syntax || match fields with [] => false | _ => true end
-                              || match extranges with [] => true | _ => false end)) E_m_badmsgset;
-    do _ <- check (is_proto3 syntax && match extranges with [] => false | _ => true end) E_m_p3ext;
-    do _ <- for_each (validate_field legacy allow syntax t m full) fields;
-    do _ <- validate_oneofs syntax fields (length oneofs) 0 false;
+    do _ <- msg_local legacy allow syntax t full m;
     do _ <- for_each (validate_enum syntax) enums;
     do _ <- (fix go (l : list msg) : res unit :=
                match l with [] => Ok tt | x :: r => do _ <- validate_msg legacy allow syntax t full x; go r end) nested;
